@@ -119,6 +119,7 @@ fn run_check(id: &str, tier: &str) -> i32 {
         "C04" => props::c04::run_c04(&rep),
         "C05" => props::c05::run_c05(&rep),
         "C06" => props::c06::run_c06(&rep),
+        "C07" => props::c07::run_c07(&rep),
         "C08" => props::c08::run_c08(&rep),
         "C09" => props::c09::run_c09(&rep),
         "C10" => props::c10::run_c10(&rep),
@@ -134,11 +135,13 @@ fn run_check(id: &str, tier: &str) -> i32 {
         "C20" => props::c20::run_c20(&rep),
         "C21" => props::c21::run_c21(&rep),
         "C22" => props::c22::run_c22(&rep),
+        "C23" => props::c23::run_c23(&rep),
         "C24" => props::c24::run_c24(&rep),
         "C25" => props::c25::run_c25(&rep),
         "C26" => props::c26::run_c26(&rep),
         "C27" => props::c27::run_c27(&rep),
         "C28" => props::c28::run_c28(&rep),
+        "C29" => props::c29::run_c29(&rep),
         _ => {
             eprintln!("no check for {}", id);
             2
